@@ -104,6 +104,12 @@ func TestRun(t *testing.T) {
 
 	for i, p := range plans {
 		scn := ids[i]
+		if savePlans {
+			// written before the run so that a crash of the process still leaves the plan behind
+			b, _ := json.Marshal(p)
+			os.WriteFile(filepath.Join(out, "plans", fmt.Sprintf("%d.json", scn)), b, 0o644)
+			os.WriteFile(filepath.Join(out, "current"), []byte(strconv.Itoa(scn)), 0o644)
+		}
 		decisions, hits, misses := RunScenario(t, scn, p, rec, scratch)
 		sum.Hits += hits
 		sum.Misses += misses
